@@ -253,6 +253,15 @@ func (propC16) Run(scI interface{}) (o *Outcome) {
 		}
 	}
 	// names with dots inside (file name mapping must not cut them)
+	if sc.Via != "bytes" {
+		// on the disk: a name in a sub-directory next to the name one gets by folding the separator
+		for _, n := range []string{"pair/one", "pair_one"} {
+			srcs[n] = "pair " + n + " {{ 4 + 4 }}"
+			if err := A.RegisterString(n, srcs[n]); err == nil {
+				names = append(names, n)
+			}
+		}
+	}
 	for _, d := range []string{"mail.welcome", "v1.2-footer", "page.html"} {
 		n := flat(d)
 		srcs[n] = "dotted " + d + " {{ 3 + 3 }}"
